@@ -119,7 +119,9 @@ Proof. exact count_if_step. Qed.
 Print Assumptions C03_count_if_step.
 Theorem C03_sum_step : forall q blanks AND s l nm e,
   let r := do_agg q blanks AND s l (Sum nm e) in
-  lookup nm (vars (x mx (fst r))) = Some (VF (num_of (lookup nm (vars (x mx s))) + fst (neval blanks s l e))) /\
+  num_of (lookup nm (vars (x mx (fst r)))) = num_of (lookup nm (vars (x mx s))) + fst (neval blanks s l e) /\
+  (none_like (nvalue blanks s l e) = false ->
+     lookup nm (vars (x mx (fst r))) = Some (VF (num_of (lookup nm (vars (x mx s))) + fst (neval blanks s l e)))) /\
   (forall v, nm <> v -> lookup v (vars (x mx (fst r))) = lookup v (vars (x mx s))).
 Proof. exact sum_step. Qed.
 Print Assumptions C03_sum_step.
